@@ -372,8 +372,19 @@ def eqTest (ex : Bool) (d : Option (Int × Nat)) : PyVal → PyVal → Res Bool
           | .ok true => eqAllContained ex d ys xs
       | .dict ks vs, .dict ks2 vs2 =>
         if pyEq a e then .ok true
-        else if !(ks2.length == ks.length && pyAllMem ks2 ks) then .ok false   -- the key sets differ
-        else eqDictVals ex d ks2 vs2 ks vs
+        -- `_are_sets_equal(set(expected.keys()), set(actual.keys()))`: the key sets are matched
+        -- *approximately* (tolerance / normalisation) ...
+        else if ks2.length != ks.length then .ok false
+        else match eqAllContained ex d ks2 ks with
+          | .error err => .error err
+          | .ok false => .ok false
+          | .ok true =>
+            match eqAllContained ex d ks ks2 with
+            | .error err => .error err
+            | .ok false => .ok false
+            -- ... but the values are then fetched by *exact* lookup: a key that only has an
+            -- approximate partner raises KeyError (`eqDictLookup`)
+            | .ok true => eqDictVals ex d ks2 vs2 ks vs
       | _, _ => .ok (pyEq a e)
 termination_by a e => sizeOf a + sizeOf e
 /-- the loop of `_are_sequences_equal` (`zip`, in order, stop at the first `False`). -/
